@@ -115,11 +115,12 @@ class SymObj:
     """An object of unknown class declared by a harness: symbolic identity, declared attributes,
     methods given as SummaryFn.  Used for 'any accumulator', 'any handler', 'any function object'."""
 
-    def __init__(self, name, ident, attrs=None, cls=None):
+    def __init__(self, name, ident, attrs=None, cls=None, closed=False):
         self.name = name
         self.ident = ident  # z3 Val term
         self.attrs = dict(attrs or {})
         self.cls = cls  # optional ClassV when the class is known but fields symbolic
+        self.closed = closed  # attrs is the complete attribute set (missing -> AttributeError)
 
     def __repr__(self):
         return f"<symobj {self.name}>"
